@@ -259,7 +259,11 @@ func engineIndex(args []string) int {
 		ev.Q = q
 		o := database.SearchOptions{Limit: len(c.db.Commands) + 5, AllPlatforms: true}
 		if r.Intn(3) == 0 && len(qw) > 0 {
-			o.ContextBoosts = map[string]float64{strings.ToLower(qw[0]): 2.0, "absent": 3.0}
+			// (factors above and below 1; zero and negative values mean "no boost")
+			o.ContextBoosts = map[string]float64{strings.ToLower(qw[0]): []float64{2.0, 0.5, 0.1, 1.0, 3.5}[r.Intn(5)], "absent": 3.0}
+			if len(qw) > 1 {
+				o.ContextBoosts[strings.ToLower(qw[len(qw)-1])] = []float64{0.25, 0, -1, 1.7}[r.Intn(4)]
+			}
 			ev.Boost = true
 		}
 		func() {
